@@ -498,6 +498,7 @@ def run(chk, ctx):
                f"read outside Sequence: {[(r, q) for r, q, _ in reads]}", rel=SEQ + "basic_functions.py", nontrivial=False)
     homo(chk, ctx, rf)
     base_rules(chk, ctx)
+    fill_ranges(chk, ctx)
     chk.note("not decided: that the recurrences are the optimum of the hierarchical problem, and the monotonicity "
              "statements between classes (consequences of the min over options, but they need induction over table values)")
 
@@ -881,7 +882,10 @@ def base_rules(chk, ctx):
                     pbe = PolyBuilder(pb.atom_fn, dict(pb.rename, **{tv: val}))
                     if pkey(pbe.poly(expr)) == pkey(cost):
                         same = True
-        chk.decide("C07.BASE", cons, True if same else False,
+        # a cell without memory slots is outside the domain (the constructors assert snapshots_in_ram > 0; C17 decides
+        # that): a mismatch there is an inconsistency of unreachable code, not a violation
+        unreachable = cell.get("cm") == 0
+        chk.decide("C07.BASE", cons, True if same else (None if unreachable else False),
                    f"table border `{' '.join(ast.unparse(expr).split())}` = {pstr(expect)}; the production of {bname} on the cell "
                    f"{cell} costs {pstr(cost)}", rel=rel, node=stmt)
     # hierarchical tables: row 0 is ub for both tables <-> l == 0 productions of aux and recurse
@@ -1041,3 +1045,100 @@ def base_rules(chk, ctx):
                 chk.decide("C07.BASE", cons, True if ok else False,
                            f"one-slot entries of opt at level 0 are `{' '.join(ast.unparse(one_o[0].value).split())}` = {pstr(expect)}; the "
                            f"production of {bname} with K = 0, cmem = 1 costs {pstr(costs_[0])}", rel=rel, node=one_o[0])
+
+
+def fill_ranges(chk, ctx):
+    """get_hopt_table: every loop that fills table entries runs to the end of the dimension its variable indexes
+    (steps: lmax + 1, slots: the slot count of the level + 1, levels: K) and starts no later than the first index that is
+    not a border (the largest constant index stored in that dimension, at that level, plus one).  A loop that stops
+    early or starts late leaves entries at their initial `inf`: the schedule is then planned from a table that says
+    "infeasible" where it is not."""
+    from .c17 import table_dims
+    from ..constprop import Liveness
+    repo = ctx.repo
+    rel = "hrevolve_sequences/hrevolve.py"
+    try:
+        fn = repo.func(rel, "get_hopt_table")
+    except Exception:
+        return
+    dims = table_dims(fn)
+    if not dims:
+        return
+    pb = PolyBuilder()
+    defs = single_defs(fn)
+    stores = []
+    for n in ast.walk(fn):
+        if isinstance(n, ast.Assign) and isinstance(n.targets[0], ast.Subscript):
+            idxs, cur = [], n.targets[0]
+            while isinstance(cur, ast.Subscript):
+                idxs.append(cur.slice)
+                cur = cur.value
+            if isinstance(cur, ast.Name) and cur.id in dims and len(idxs) == len(dims[cur.id]):
+                stores.append((cur.id, idxs[::-1], n))
+    if not stores:
+        return
+
+    def level_key(ix):
+        return "0" if (isinstance(ix, ast.Constant) and ix.value == 0) else ("var" if isinstance(ix, ast.Name) else "?")
+    # borders: constant indices per (dimension, level class)
+    borders = {}
+    for tab, idxs, n in stores:
+        lk = level_key(idxs[0])
+        for d, ix in enumerate(idxs):
+            if d > 0 and isinstance(ix, ast.Constant) and isinstance(ix.value, int):
+                borders.setdefault((d, lk), set()).add(ix.value)
+                if lk == "var":
+                    borders.setdefault((d, "0"), set()).add(ix.value)     # a loop over all levels includes level 0
+    k = 0
+    for loop in [n for n in ast.walk(fn) if isinstance(n, ast.For) and isinstance(n.target, ast.Name)
+                 and isinstance(n.iter, ast.Call) and getattr(n.iter.func, "id", None) == "range" and 1 <= len(n.iter.args) <= 2]:
+        v = loop.target.id
+        uses = [(tab, d, idxs, n) for tab, idxs, n in stores if any(x is n for x in ast.walk(loop))
+                for d, ix in enumerate(idxs) if isinstance(ix, ast.Name) and ix.id == v]
+        if not uses:
+            continue
+        tab, d, idxs, n0 = uses[0]
+        if any(u[1] != d for u in uses):
+            continue
+        lo = loop.iter.args[0] if len(loop.iter.args) == 2 else ast.Constant(0)
+        hi = loop.iter.args[-1]
+        size = dims[tab][d]
+        cons = f"hrevolve_sequences.hrevolve.get_hopt_table#fill-loop[{k}]({v}: dim {d})"
+        k += 1
+        if size is None:
+            continue
+        if d == 2:
+            # the slot dimension of level i has cvect[i] + 1 entries: compare with the level index of the stores
+            lvl = idxs[0]
+            size = ast.BinOp(ast.Subscript(ast.Name("cvect", ast.Load()), lvl, ast.Load()), ast.Add(), ast.Constant(1))
+        def resolve(e, line):
+            """names with several plain definitions stand for the textually nearest preceding one"""
+            import copy as _c
+            assigns = {}
+            for a_ in ast.walk(fn):
+                if isinstance(a_, ast.Assign) and len(a_.targets) == 1 and isinstance(a_.targets[0], ast.Name) and a_.lineno <= line \
+                        and not any(isinstance(x, ast.Call) and getattr(x.func, "id", None) not in ("len",) for x in ast.walk(a_.value)):
+                    cur_ = assigns.get(a_.targets[0].id)
+                    if cur_ is None or cur_.lineno <= a_.lineno:
+                        assigns[a_.targets[0].id] = a_
+
+            class R(ast.NodeTransformer):
+                def visit_Name(self, node):
+                    if isinstance(node.ctx, ast.Load) and node.id in assigns and node.id not in defs:
+                        return _c.deepcopy(assigns[node.id].value)
+                    return node
+            return subst_defs(R().visit(_c.deepcopy(e)), defs)
+        try:
+            got_hi = pkey(pb.poly(resolve(hi, loop.lineno)))
+            want_hi = pkey(pb.poly(resolve(size, loop.lineno)))
+        except Exception:
+            continue
+        ok_hi = got_hi == want_hi
+        lo_c = lo.value if isinstance(lo, ast.Constant) and isinstance(lo.value, int) else None
+        bmax = max(borders.get((d, level_key(idxs[0])), {-1})) if d > 0 else None
+        ok_lo = True if (d == 0 or lo_c is None) else (lo_c <= bmax + 1)
+        chk.decide("C07.TABLE", cons, True if (ok_hi and ok_lo) else False,
+                   f"`for {v} in {ast.unparse(loop.iter)}` fills dimension {d} of `{tab}`: "
+                   + ("runs to the end of the dimension" if ok_hi else f"ends at {ast.unparse(hi)}, the dimension has {ast.unparse(size)} entries")
+                   + ("" if ok_lo else f"; starts at {lo_c}, the first entry after the borders is {bmax + 1}"),
+                   rel=rel, node=loop, nontrivial=False)
